@@ -6,7 +6,8 @@ NAMES = ['bnd:C16.parse_equals_fresh', 'bnd:C16.parse.total']
 
 def run(report):
     verify_keys(report, ['parso.cache._set_cache_item', 'parso.cache.load_module', 'parso.cache._load_from_file_system',
-                         'parso.cache.try_to_save_module', 'parso.cache._NodeCacheItem.__init__'])
+                         'parso.cache.try_to_save_module', 'parso.cache._NodeCacheItem.__init__',
+                         'parso.file_io.FileIO.get_last_modified'])
     report.assume("ghost environment of the cache VCs: cur_mtime(path) (the file's mtime now, only grows) and "
                   "ver_at(path, mtime) (content version; a function of mtime by the property's proviso); get_last_modified "
                   "returns cur_mtime; representation invariant of parser_cache is a precondition of load_module; that "
